@@ -7,6 +7,7 @@ import (
 
 	"github.com/mlange-42/arche/ecs"
 	"github.com/mlange-42/arche/ecs/event"
+	"github.com/mlange-42/arche/filter"
 	"github.com/mlange-42/arche/generic"
 	"verifharness/wx"
 )
@@ -57,7 +58,8 @@ func (c *LockCfg) OpString(op wx.Op) string {
 	case LkEntityAt:
 		return fmt.Sprintf("q%d.EntityAt(%d)", op.A, op.B)
 	case LkRemoveProbe:
-		return [...]string{"e := NewEntity(D); RemoveEntity(e) with a listener that calls every structural entry point", "e := NewEntity(D); Batch.RemoveEntities(All(D)) with a listener that calls every structural entry point"}[op.A]
+		return [...]string{"e := NewEntity(D); RemoveEntity(e) with a listener that calls every structural entry point", "e := NewEntity(D); Batch.RemoveEntities(All(D)) with a listener that calls every structural entry point",
+			"NewEntity(D); NewEntity(C); Batch.RemoveEntities(Any(D,C)) with a listener restricted to D that calls every structural entry point"}[op.A]
 	}
 	return lkNames[op.K]
 }
@@ -114,6 +116,7 @@ func (c *LockCfg) New() wx.Run {
 	r.r = ecs.ComponentID[CompR](w)
 	r.z = ecs.ComponentID[CompZ](w)
 	r.d = ecs.ComponentID[CompD](w)
+	ecs.ComponentID[CompC](w)
 	r.seed()
 	r.cached = w.Cache().Register(ecs.All(r.a))
 	r.entries = r.structuralEntries()
@@ -186,7 +189,7 @@ func (r *LockRun) Enabled() []wx.Op {
 		ops = append(ops, wx.Op{K: LkToggle})
 		ops = append(ops, wx.Op{K: LkOpenBatch, A: 0}, wx.Op{K: LkOpenBatch, A: 1})
 		if r.probes < r.cfg.Probes {
-			ops = append(ops, wx.Op{K: LkRemoveProbe, A: 0}, wx.Op{K: LkRemoveProbe, A: 1})
+			ops = append(ops, wx.Op{K: LkRemoveProbe, A: 0}, wx.Op{K: LkRemoveProbe, A: 1}, wx.Op{K: LkRemoveProbe, A: 2})
 		}
 		if !r.regProbed {
 			ops = append(ops, wx.Op{K: LkRegisterProbe})
@@ -331,13 +334,27 @@ func (r *LockRun) Apply(op wx.Op) (res wx.Result) {
 		r.probes++
 		e := w.NewEntity(r.d)
 		probe := &probeListener{r: r}
-		w.SetListener(probe)
-		if op.A == 0 {
-			w.RemoveEntity(e)
+		if op.A == 2 {
+			// a listener restricted to component D; the batch removes a {D} table and then a {C} table, for which it is not notified
+			c := ecs.ComponentID[CompC](w)
+			e2 := w.NewEntity(c)
+			m := ecs.All(r.d)
+			probe.comps = &m
+			w.SetListener(probe)
+			w.Batch().RemoveEntities(filter.Any(r.d, c))
+			w.SetListener(nil)
+			if w.Alive(e2) {
+				return r.fail("probe:not-removed", name+": second entity still alive")
+			}
 		} else {
-			w.Batch().RemoveEntities(ecs.All(r.d))
+			w.SetListener(probe)
+			if op.A == 0 {
+				w.RemoveEntity(e)
+			} else {
+				w.Batch().RemoveEntities(ecs.All(r.d))
+			}
+			w.SetListener(nil)
 		}
-		w.SetListener(nil)
 		if probe.calls != 1 {
 			return r.fail("probe:events", fmt.Sprintf("%s: %d removal events delivered, expected 1", name, probe.calls))
 		}
@@ -392,13 +409,14 @@ func (r *LockRun) Apply(op wx.Op) (res wx.Result) {
 
 type probeListener struct {
 	r     *LockRun
+	comps *ecs.Mask
 	calls int
 	err   string
 	sig   string
 }
 
 func (l *probeListener) Subscriptions() event.Subscription { return event.All }
-func (l *probeListener) Components() *ecs.Mask             { return nil }
+func (l *probeListener) Components() *ecs.Mask             { return l.comps }
 func (l *probeListener) Notify(w *ecs.World, e ecs.EntityEvent) {
 	if !e.Contains(event.EntityRemoved) {
 		return
@@ -499,6 +517,23 @@ func (r *LockRun) structuralEntries() []lockEntry {
 			ecs.NewBuilderWith(w, ecs.Component{ID: rr, Comp: &CompR{V: 1}}).WithRelation(rr).New(e[1])
 		}},
 		{"Builder.NewBatch", func() { ecs.NewBuilder(w, a).NewBatch(2) }},
+		// component combinations and relation targets for which no node / table exists yet: nothing may be created before the lock check
+		{"World.NewEntity(new combination)", func() { w.NewEntity(d, r.z) }},
+		{"World.NewEntityWith(new combination)", func() { w.NewEntityWith(val(), ecs.Component{ID: r.z, Comp: &CompZ{}}) }},
+		{"Builder.NewBatch(new combination)", func() { ecs.NewBuilder(w, d, r.z).NewBatch(2) }},
+		{"Builder.NewBatchQ(new combination)", func() { q := ecs.NewBuilder(w, d, r.z, a).NewBatchQ(2); q.Close() }},
+		{"BuilderWith.NewBatch(new combination)", func() { ecs.NewBuilderWith(w, val(), ecs.Component{ID: a, Comp: &CompA{V: 1}}).NewBatch(2) }},
+		{"Builder.New(new target)", func() { ecs.NewBuilder(w, rr).WithRelation(rr).New(e[5]) }},
+		{"Builder.NewBatch(new target)", func() { ecs.NewBuilder(w, rr).WithRelation(rr).NewBatch(2, e[5]) }},
+		{"Builder.NewBatchQ(new target, new combination)", func() { q := ecs.NewBuilder(w, rr, d).WithRelation(rr).NewBatchQ(2, e[2]); q.Close() }},
+		{"World.Add(new combination)", func() { w.Add(e[1], d, r.z) }},
+		{"World.Exchange(new combination)", func() { w.Exchange(e[4], []ecs.ID{d}, []ecs.ID{a}) }},
+		{"Relations.Exchange(new target)", func() { w.Relations().Exchange(e[5], []ecs.ID{rr, d}, nil, rr, e[2]) }},
+		{"Batch.Add(new combination)", func() { w.Batch().Add(fr, d) }},
+		{"Batch.Exchange(new combination)", func() { w.Batch().Exchange(fr, []ecs.ID{d, r.z}, nil) }},
+		{"Relations.ExchangeBatch(new target)", func() { w.Relations().ExchangeBatch(&exA, []ecs.ID{rr, d}, nil, rr, e[2]) }},
+		{"Batch.SetRelation(new target)", func() { w.Batch().SetRelation(fr, rr, e[2]) }},
+		{"Relations.Set(new target)", func() { w.Relations().Set(e[3], rr, e[2]) }},
 		{"Builder.NewBatch(target)", func() { ecs.NewBuilder(w, rr).WithRelation(rr).NewBatch(2, e[1]) }},
 		{"BuilderWith.NewBatch", func() { ecs.NewBuilderWith(w, val()).NewBatch(2) }},
 		{"Builder.NewBatchQ", func() { q := ecs.NewBuilder(w, a).NewBatchQ(2); q.Close() }},
